@@ -132,4 +132,31 @@ JudgeFrFromFloat(e, i) ==
                                  ELSE Lt(diffN, Shl(Mul(bigger, d), 4 - D))
                     IN [d |-> (IF ~between THEN "not_between_adjacent_integers" ELSE IF ~close THEN "too_far" ELSE "ok"),
                         nt |-> TRUE, cls |-> cls]
+================================================================
+
+\* C15 (class template argument deduction) + C17: cnl::fraction{x} for a floating-point x.  The deduced component type must be a
+\* signed integer with at least as many digits as the format's significand (so that it "holds that initializer exactly" for every
+\* integral initializer of the format), numerator and denominator of the same type; an integral initializer below 2^p must be held
+\* exactly; everything else is C17's contract for the deduced component type.
+JudgeFrCtad(e, i) ==
+    LET f == e.x  t == AsIntT(i.rt.num)  p == i.lt.p
+        base == JudgeFrFromFloat(e, i)
+        cls == <<"FrCtad", t.w, p>>
+        typeOK == i.rt.num.k = "int" /\ i.rt.den = i.rt.num /\ t.s = 1 /\ TDigits(t) >= p
+        X == IF f.c = "fin" /\ f.e >= 0 /\ f.e < 200 THEN Shl(FMag(f), f.e) ELSE Zero
+        integral == f.c = "fin" /\ f.e >= 0 /\ f.e < 200 /\ BitLen(X) <= p
+        sx == IF f.n = 1 THEN Neg(X) ELSE X
+        held == e.out = "ok" /\ Gt(J(e.res[2]), Zero) /\ J(e.res[1]) = Mul(sx, J(e.res[2]))
+    IN IF ~typeOK THEN [d |-> "wrong_type", nt |-> TRUE, cls |-> cls]
+       ELSE IF integral /\ ~held THEN [d |-> "initializer_not_held", nt |-> TRUE, cls |-> cls]
+       ELSE base
+
+\* cnl::fraction{n} (n/1 in n's own type) and cnl::fraction{n, d} for integers
+JudgeFrCtadInt(e, i) ==
+    LET cls == <<"FrCtadInt", i.op>>
+        typeOK == i.rt.num = i.lt /\ i.rt.den = i.lt
+    IN IF ~typeOK THEN [d |-> "wrong_type", nt |-> TRUE, cls |-> cls]
+       ELSE IF e.out # "ok" THEN [d |-> FrOut(e.out), nt |-> TRUE, cls |-> cls]
+       ELSE [d |-> (IF J(e.res[1]) = J(e.l) /\ J(e.res[2]) = J(e.r) THEN "ok" ELSE "initializer_not_held"),
+             nt |-> J(e.l).n \/ BitLen(J(e.l)) > 8, cls |-> cls]
 =============================================================================
